@@ -13,9 +13,9 @@ GEN = {"quick": dict(Grid1=4, MaxN1=4, Grid2=2, MaxN2=3, MaxK=3, MaxB=3, DeepN=0
        "thorough": dict(Grid1=5, MaxN1=5, Grid2=2, MaxN2=4, MaxK=3, MaxB=3, DeepN=4,
                         RGrid1=5, RMaxN1=5, RGrid2=2, RMaxN2=4, Runs=4, Seeds="{1, 2}")}
 # sampling of the enumerated product (the complete sub-domain n <= FULL_N is always kept)
-FULL_N = {"quick": 2, "thorough": 2}
+FULL_N = {"quick": 2, "thorough": 3}
 SAMPLE = {"quick": {("traj", 1): 800, ("traj", 2): 800, ("restart", 1): 400, ("restart", 2): 300},
-          "thorough": {("traj", 1): 9000, ("traj", 2): 9000, ("restart", 1): 2500, ("restart", 2): 2500}}
+          "thorough": {("traj", 1): 6000, ("traj", 2): 6000, ("restart", 1): 2500, ("restart", 2): 2500}}
 TRACE_CONST = dict(MaxN1=0, Grid1=0, MaxN2=0, Grid2=0, MaxK=0, MaxB=0)
 VARIANTS = [("f64", "l2", "owned"), ("f64", "l2", "view"), ("f64", "l2", "owned"), ("f64", "l2", "owned"),
             ("f32", "l2", "owned"), ("f64", "l1", "owned"), ("f64", "linf", "view"), ("f32", "l1", "owned")]
@@ -150,7 +150,7 @@ def run(ctx):
     ctx.extra["enumerated_by_tlc"] = len(allcases)
     ctx.exhaustive = False
     if not ctx.quick:
-        cases += random_cases(ctx, 2000, 1500)
+        cases += random_cases(ctx, 2500, 1500)
     vlib.number(cases)
     ctx.cases = len(cases)
     ctx.nontrivial = len({json.dumps(c["inp"], sort_keys=True) + c["kind"] for c in cases if nontrivial(c)})
